@@ -1,5 +1,5 @@
-\* thorough: policy-independent safety over a window of 6
-CONSTANT W = 6
+\* thorough: policy-independent safety over a window of 5
+CONSTANT W = 5
 CONSTANT MaxSteps = 6
 CONSTANT MaxNums = {0}
 CONSTANT Olds = {FALSE}
